@@ -1,33 +1,53 @@
 import DynasmVerif.Drv.Reloc
+import DynasmVerif.Drv.Asm
 
 /-! Line-protocol driver: reads request lines on stdin, answers each with one `= …` line.
-The first line `hdr <stream> …` selects the stream. Lines starting with `#` or `=` are skipped
-(the harness output, which interleaves requests and its own answers, can be piped in unchanged). -/
+The first line `hdr <stream> …` selects the stream. The harness output (requests interleaved with its own
+`= answer` lines) can be piped in unchanged: an answer line is handed to the model as the *environment hint*
+of the request before it (addresses chosen by the OS are inputs of the model). Lines starting with `#` are skipped. -/
 
 open DynasmVerif
 
 structure DState where
   stream : String := ""
+  pending : Option String := none
+  asm : Asm.Machine := {}
 
-def stepLine (st : DState) (line : String) : DState × Option String :=
-  let ws := Util.words line
+/-- execute one request with the implementation's answer (or "" when none is available) -/
+def exec (st : DState) (req hint : String) : DState × String :=
+  let ws := Util.words req
   match ws with
-  | [] => (st, none)
-  | "hdr" :: s :: _ => ({ st with stream := s }, some s!"= hdr {s}")
-  | w :: _ =>
-    if w.startsWith "#" || w == "=" then (st, none)
-    else match st.stream with
-      | "reloc" => (st, some (Drv.Reloc.handle ws))
-      | _ => (st, some "= bad-stream")
+  | "hdr" :: s :: _ => ({ st with stream := s, asm := {} }, s!"= hdr {s}")
+  | _ =>
+    match st.stream with
+    | "reloc" => (st, Drv.Reloc.handle ws)
+    | "asm" =>
+      match ws with
+      | ["reset"] => ({ st with asm := {} }, "= ok")
+      | _ => let (m, a) := Drv.Asm.handle st.asm ws hint; ({ st with asm := m }, a)
+    | _ => (st, "= bad-stream")
+
+def flushPending (st : DState) (hint : String) (out : IO.FS.Stream) : IO DState := do
+  match st.pending with
+  | none => return st
+  | some req =>
+    let (st', a) := exec { st with pending := none } req hint
+    out.putStrLn a
+    return st'
 
 partial def loop (h : IO.FS.Stream) (out : IO.FS.Stream) (st : DState) : IO Unit := do
   let line ← h.getLine
-  if line.isEmpty then return ()
-  let (st', o) := stepLine st line
-  match o with
-  | some s => out.putStrLn s
-  | none => pure ()
-  loop h out st'
+  if line.isEmpty then
+    let _ ← flushPending st "" out
+    return ()
+  let t := line.trimAscii.toString
+  if t.isEmpty || t.startsWith "#" then loop h out st
+  else if t.startsWith "= " || t == "=" then
+    let st' ← flushPending st (t.drop 2).toString out
+    loop h out st'
+  else
+    let st' ← flushPending st "" out
+    loop h out { st' with pending := some t }
 
 def main : IO Unit := do
   let out ← IO.getStdout
